@@ -38,13 +38,19 @@ RULE = (
     "a 9-symbol alphabet (4 reads, 3 writes, argument write, transform) on a fixed 3x2 matrix. Non-trivial: at least one write or call was carried out; distinct by "
     "case hash. Oracle: snapshot before == snapshot after every step (tobytes / exact labels; axis names excluded): between "
     "steps the six to_dict() parts + result parts + a re-read of every accessor read so far, after the last step every "
-    "accessor instance (a difference seen only there triggers a re-run comparing everything after every step)."
+    "accessor instance (a difference seen only there triggers a re-run comparing everything after every step). INPUTS NEVER "
+    "MUTATED: every constructor argument (the caller's DataFrame — made with named Index objects, `df.index.name = ...`, "
+    "rename_axis, read_csv(index_col=0) or pivot; axes named or not — its base array and Index objects, objectives / weights "
+    "/ alternatives / criteria as arrays or plain lists) is snapshotted right before construction (values bit for bit, "
+    "dtypes, labels AND axis names) and compared right after construction, after the evaluate() that made the result and "
+    "after every step of the history that is not the caller's own write into that argument."
 )
 ASSUMPTIONS = [
     "labelled axes (as mkdm / from_mcda_data always produce): a pandas RangeIndex shares one materialised cache between all "
     "its copies inside pandas, so matrices built by a bare DecisionMatrix(ndarray, ...) are outside the domain (their "
     "dominance accessors raise TypeError anyway)",
-    "axis names (index.name / columns.name) and result extras (e_) are outside the property's snapshot and alphabet",
+    "axis names (index.name / columns.name) of what the MATRIX reports and result extras (e_) are outside the property's "
+    "snapshot and alphabet (the caller's own frame / Index objects are compared including their axis names)",
     "dominance chains are at most 8 long (matrices have <= 8 alternatives): dominators_of returns < 2**8 entries",
     "repr(dm) / _repr_html_() are not called (they raise under the installed pandas)",
     "RankInvariantChecker is run only on matrices without ties inside a criterion (a tie makes the pre-fix checker loop forever)",
@@ -216,6 +222,11 @@ def run_history(case, ops=None, detail=False, full=False):
     base = s.snapshot(insts)
     base_canon = [s.report(i) for i in insts] if detail else None
     got, steps, first_bad, touched = {}, [], None, set()
+    # "inputs never mutated": the caller's own objects are compared after every step the LIBRARY carries out (reads,
+    # calls) and every write into an object the matrix handed out; the caller's own writes into them (`mutarg`) move
+    # the baseline.  What the constructor itself did to them is in `s.ctor_changed`.
+    arg_base = s.arg_snapshot()
+    arg_canon = s.arg_canon() if detail else None
     with quiet():
         for t, op in enumerate(ops):
             rec = {"op": op["op"]}
@@ -263,16 +274,28 @@ def run_history(case, ops=None, detail=False, full=False):
             if ch_idx and not full and t == len(ops) - 1 and not any(insts[i][0] in _CORE or i in touched for i in ch_idx):
                 return run_history(case, ops, detail, full=True)
             rec["changed"] = ch_idx
-            steps.append(rec)
-            if ch_idx:
-                first_bad = t
+            arg_now = s.arg_snapshot()
+            if kind == "mutarg":
+                arg_base = arg_now
                 if detail:
+                    arg_canon = s.arg_canon()
+            else:
+                rec["args_changed"] = [k for k in sorted(arg_base) if arg_base[k] != arg_now[k]]
+            steps.append(rec)
+            if ch_idx or rec.get("args_changed"):
+                first_bad = t
+                if detail and ch_idx:
                     i = ch_idx[0]
                     rec["before"] = base_canon[i]
                     rec["after"] = s.report(insts[i])
+                elif detail:
+                    k = rec["args_changed"][0]
+                    rec["before"] = arg_canon[k]
+                    rec["after"] = s.arg_canon()[k]
                 break
     return {"steps": steps, "first_bad": first_bad, "insts": [[n, list(a)] for n, a in insts], "nargs": len(s.args),
-            "argnames": sorted(s.args), "ctor": case["dm"]["ctor"], "has_res": s.res is not None}
+            "argnames": sorted(s.args), "ctor": case["dm"]["ctor"], "has_res": s.res is not None,
+            "ctor_changed": s.ctor_changed}
 
 
 def _drop(ops, j):
@@ -363,13 +386,42 @@ def _describe(op, rec, insts):
     return f"call {op['what']}"
 
 
+def _describe_args(case):
+    d = case["dm"]
+    if d["ctor"] != "df":
+        return f"mkdm, {d.get('argform', 'array')}s"
+    return f"DecisionMatrix(df), frame made by `{d.get('frame', 'index')}` with axis names {d.get('axisnames')}, " \
+           f"{d.get('argform', 'array')}s"
+
+
 def judge(case, obs, replies):
     out = []
     rep = replies[0]
     steps = obs["steps"]
     if "steps" not in rep:
         return [{"kind": "correspondence", "what": f"model refused the history: {rep}"}]
-    if obs["first_bad"] is not None:
+    for ch in obs.get("ctor_changed", [])[:1]:
+        # inputs never mutated: the caller's own object is exactly as it was (values, dtypes, labels, axis names)
+        out.append({
+            "kind": "property",
+            "what": f"{ch['by']} changed the caller's own `{ch['arg']}` (arguments: {_describe_args(case)})",
+            "expected": {"unchanged": ch["arg"], "was": ch["before"]},
+            "observed": {"changed": [c["arg"] for c in obs["ctor_changed"]], "now": ch["after"]},
+            "case": dict(case, ops=[]),
+        })
+    if obs["first_bad"] is not None and not obs["min"]["steps"][-1]["changed"]:
+        mini, mobs = obs["min_ops"], obs["min"]
+        last = mobs["steps"][-1]
+        hist = [_describe(o, r, mobs["insts"]) for o, r in zip(mini, mobs["steps"])]
+        out.append({
+            "kind": "property",
+            "what": "a step changed the caller's own constructor argument(s): " + " ; ".join(hist) + " -> changed: "
+                    + ", ".join(last["args_changed"]) + f" (arguments: {_describe_args(case)})",
+            "expected": {"unchanged": last["args_changed"][:1], "was": last.get("before")},
+            "observed": {"history": hist, "changed": last["args_changed"], "now": last.get("after")},
+            "case": dict(case, ops=mini),
+        })
+    elif obs["first_bad"] is not None:
         mini, mobs = obs["min_ops"], obs["min"]
         last = mobs["steps"][-1]
         names = [f"{n}{a if a else ''}" for n, a in (mobs["insts"][i] for i in last["changed"][:8])]
@@ -416,8 +468,13 @@ def nontrivial(case, obs):
 
 
 def tags(case, obs):
-    t = ["ctor:" + case["dm"]["ctor"], "labels:" + case["dm"]["labels"], "len:%02d" % len(case["ops"]),
-         "result:" + (case["res"]["name"] if case.get("res") else "none")]
+    d = case["dm"]
+    t = ["ctor:" + d["ctor"], "labels:" + d["labels"], "len:%02d" % len(case["ops"]),
+         "result:" + (case["res"]["name"] if case.get("res") else "none"), "args:" + d.get("argform", "array")]
+    if d["ctor"] == "df":
+        an = d.get("axisnames") or {}
+        t += ["frame:" + d.get("frame", "index"),
+              "axisnames:" + ("+".join(k for k in ("index", "columns") if an.get(k) is not None) or "none")]
     for op, r in zip(case["ops"], obs["steps"]):
         if r["op"] == "read":
             t.append("read:" + op["acc"][0].split("(")[0].split("[")[0])
@@ -460,6 +517,17 @@ def gen_dm(rng, res_spec=None, no_ties=False, m=None, n=None):
     # RangeIndex axes, which are outside the domain (see ASSUMPTIONS)
     d["ctor"] = rng.choice(["df", "df", "mkdm"])
     d["objdtype"] = rng.choice(["object-int", "object-fn", "int"])
+    # the caller's own objects: objectives / weights / label arguments as arrays or as plain lists; for the class
+    # constructor a frame that came about in one of the usual ways, its axes named or not
+    d["argform"] = "list" if rng.random() < 0.2 else "array"
+    if d["ctor"] == "df":
+        # (a CSV file turns integer criteria labels into strings and evenly spaced integer alternatives into a
+        # RangeIndex, which is outside the domain: read_csv frames have string labels)
+        d["frame"] = rng.choice([f for f in L.FRAME_MAKERS if f != "read_csv" or d["labels"] == "str"])
+        r = rng.random()
+        d["axisnames"] = None if r < 0.25 else {
+            "index": rng.choice(L.AXIS_NAME_POOL) if r < 0.75 else None,
+            "columns": rng.choice(L.AXIS_NAME_POOL) if r >= 0.5 else None}
     return d
 
 
@@ -532,7 +600,7 @@ def _case(rng, length=None):
 # exhaustive tier: every history of length <= 4 over this alphabet, on one fixed matrix with a dominance chain
 _EX_DM = {"matrix": [[1.0, 2.0], [2.0, 3.0], [3.0, 4.0]], "objectives": [1, 1], "weights": [0.25, 0.75],
           "alternatives": ["A", "B", "C"], "criteria": ["x", "y"], "labels": "str", "ctor": "df", "objdtype": "object-int",
-          "family": "dyadic"}
+          "family": "dyadic", "frame": "index", "axisnames": {"index": "vehicle", "columns": "feature"}}
 _EX_READS = [("dm.objectives", ()), ("dm.alternatives", ()), ("dm.dominance.dominators_of(a)", (0,)), ("res.values", ())]
 _EX_ALPHABET = ["R0", "R1", "R2", "R3", "Wlast-a", "Wlast-b", "Wfirst", "M", "C"]
 
